@@ -107,12 +107,19 @@ def nrmIP {α : Type} [Div α] [Zero α] [DecidableEq α] (len : V3 α → α) (
 macro "tree_eq" : tactic =>
   `(tactic| (split_ifs <;> first | rfl | (simp only [*, if_true, if_false]; done) | (simp [*]; done) | (simp_all; done)))
 
+/-- largest absolute component, as the code computes it: `std::max (std::max (std::abs x, std::abs y), std::abs z)` -/
+def maxAbs {α : Type} [LT α] [DecidableLT α] [Neg α] [OfNat α 0] (v : V3 α) : α := smax (smax (sabs v.x) (sabs v.y)) (sabs v.z)
+/-- `v /= maxAbs v`: the vector brought to unit scale (largest component ±1) — `alignZAxisWithTargetDir` does this to both arguments
+since /repo 8e640b7, so that its quadratic / cubic cross products cannot overflow or underflow -/
+def scaleMax {α : Type} [LT α] [DecidableLT α] [Neg α] [OfNat α 0] [Div α] (v : V3 α) : V3 α :=
+  ⟨v.x / maxAbs v, v.y / maxAbs v, v.z / maxAbs v⟩
+
 /-- documented behaviour of `alignZAxisWithTargetDir (result, targetDir, upDir)`:
-zero target → +z; zero up → +y; up ∥ target → `target × x̂`, or `target × ẑ` when that vanishes too;
-rows = normalised `up × target`, `target × (up × target)`, `target`. -/
-def alignZSpec {α : Type} [Field α] [DecidableEq α] (len : V3 α → α) (targetDir upDir : V3 α) : M44 α :=
-  let t : V3 α := if len targetDir = 0 then ⟨0, 0, 1⟩ else targetDir
-  let u1 : V3 α := if len upDir = 0 then ⟨0, 1, 0⟩ else upDir
+zero target → +z; zero up → +y; both rescaled by their largest component; up ∥ target → `target × x̂`, or `target × ẑ` when that vanishes
+too; rows = normalised `up × target`, `target × (up × target)`, `target`. -/
+def alignZSpec {α : Type} [Field α] [LinearOrder α] (len : V3 α → α) (targetDir upDir : V3 α) : M44 α :=
+  let t : V3 α := scaleMax (if len targetDir = 0 then ⟨0, 0, 1⟩ else targetDir)
+  let u1 : V3 α := scaleMax (if len upDir = 0 then ⟨0, 1, 0⟩ else upDir)
   let u : V3 α :=
     if len (cross u1 t) = 0 then
       (if len (cross t ⟨1, 0, 0⟩) = 0 then cross t ⟨0, 0, 1⟩ else cross t ⟨1, 0, 0⟩)
